@@ -55,6 +55,8 @@ def case_summary(case):
         d['obj'] = lit(case['obj'])
     if case.get('kw'):
         d['kw'] = lit(case['kw'])
+    if 'history' in case:
+        d['history'] = list(case['history'])
     return d
 
 
@@ -65,6 +67,8 @@ def case_from_summary(d):
         c['start'] = d.get('start', 0)
     if 'obj' in d:
         c['obj'] = unlit(d['obj'])
+    if 'history' in d:
+        c['history'] = list(d['history'])
     return c
 
 
